@@ -371,8 +371,13 @@ EvalFunc(t, env) ==      \* t = call whose func is a name
                    IF ~b[1] THEN Err("TypeError-bind") ELSE Mix(FuncCode(f), b[2])
                ELSE Unm("function " \o f)
 
+(* module-level constants a lambda may capture (C01: captured values): the harness defines the same *)
+(* names in the generated modules and in the CPython reference runtime                             *)
+GlobalConsts == [CUT |-> 30, SCALE |-> 2]
 Eval(t, env) ==
-    CASE t.k = "name"  -> IF t.s \in DOMAIN env THEN env[t.s] ELSE Err("NameError")
+    CASE t.k = "name"  -> IF t.s \in DOMAIN env THEN env[t.s]
+                          ELSE IF t.s \in DOMAIN GlobalConsts THEN VInt(GlobalConsts[t.s])
+                          ELSE Err("NameError")
       [] t.k = "int"   -> VInt(t.n)
       [] t.k = "bool"  -> V("bool", t.n, "", <<>>, <<>>)
       [] t.k = "str"   -> VStr(t.s)
